@@ -27,6 +27,9 @@ type TypeSpec struct {
 	// Soft types only: map key under which a relationship is stored when it is
 	// not its FromName (a hand-written Type literal; C15 quantifies over those).
 	RelKeys map[string]string
+	// Soft types only: the Type value is derived from another one that was
+	// already in use (base.New(), base.Copy(), rename, add a field).
+	Derived bool
 }
 
 // SchemaSpec is a generated schema together with its description.
@@ -90,6 +93,8 @@ func (ts TypeSpec) String() string {
 	impl := "soft"
 	if ts.Struct {
 		impl = "struct"
+	} else if ts.Derived {
+		impl = "soft,derived"
 	}
 
 	fmt.Fprintf(&b, "%s(%s){", ts.Name, impl)
@@ -237,6 +242,26 @@ func SoftTypeOf(ts *TypeSpec) jsonapi.Type {
 		typ.Rels[key] = r
 	}
 
+	if ts.Derived {
+		base := typ.Copy()
+		base.Name = ts.Name + "-base"
+
+		var last *jsonapi.Attr
+		if n := len(ts.Attrs); n > 0 {
+			last = &ts.Attrs[n-1]
+			delete(base.Attrs, last.Name)
+		}
+
+		_ = base.New()
+
+		typ = base.Copy()
+		typ.Name = ts.Name
+
+		if last != nil {
+			typ.Attrs[last.Name] = *last
+		}
+	}
+
 	return typ
 }
 
@@ -345,6 +370,7 @@ func CoherentSchema(t *rapid.T, o SchemaOpts) *SchemaSpec {
 		}
 
 		specs[i].NilMaps = rapid.Bool().Draw(t, "nilmaps")
+		specs[i].Derived = rapid.IntRange(0, 3).Draw(t, "derived") == 0
 
 		if o.AllKindsChance > 0 && rapid.IntRange(1, o.AllKindsChance).Draw(t, "allkinds") == 1 {
 			specs[i].Attrs = AllKindAttrs()
